@@ -541,6 +541,12 @@ class Visitor:
                 # Explicit `ClassVar`: class attribute only.
                 annotation = annotation.slice  # type: ignore[attr-defined]
                 labels.add("class-attribute")
+            elif isinstance(annotation, Expr) and annotation.canonical_path in {
+                "typing.ClassVar",
+                "typing_extensions.ClassVar",
+            }:
+                # Bare `ClassVar` (no type given): class attribute only as well.
+                labels.add("class-attribute")
             elif node.value:
                 # Attribute assigned at class-level: available in instances as well.
                 labels.add("class-attribute")
